@@ -169,7 +169,7 @@ var c06Vocab = func() []jsVocab {
 		"`t`", "``", "`\\``", "`\\${`", "`$`", "`$a`", "`a\nb`", "`{`", "`}`", "`${a}`", "`a${b}c`", "`${a}${b}`", "`${`n`}`", "`a${`b${c}d`}e`", "`${{}}`", "`${'}'}`",
 		"//c", "// c ", "/**/", "/* c */", "/*\n*/", "/*\r\n*/", "/* */", "/***/", "/* // */", "<!--c", "<!-- c -->",
 		" ", "\t", "\v", "\f", "\u00a0", "\ufeff", "\u2003", "  ", "\n", "\r", "\r\n", "\u2028", "\u2029", "\n\n")
-	for _, s := range []string{"/ab+c/g", "/[/]\\//", "/a/", "/\\//", "/[\\]/]/u", "/=/", "/=a/i", "/a[/]b/gim", "/(?:)/", "/a\\/b/é"} {
+	for _, s := range []string{"/ab+c/g", "/[/]\\//", "/a/", "/\\//", "/[\\]/]/u", "/=/", "/=a/i", "/a[/]b/gim", "/(?:)/", "/a\\/b/é", "/[[]/", "/[a[b]+/", "/=[[]/", "/[[][/]]/", "/[\\[]/"} {
 		v = append(v, jsVocab{s, true})
 	}
 	return v
